@@ -24,7 +24,7 @@ type monC17 struct {
 func (c *monC17) Init(m *Machine) { c.kinds = map[string]bool{} }
 
 var secretKinds = map[string]bool{"password": true, "password-typed": true, "otp": true, "otp-typed": true, "recovery": true,
-	"remember-cookie": true, "remember-cookie-raw": true, "confirm-token": true, "recover-token": true, "2fa-verify-token": true}
+	"remember-cookie": true, "remember-cookie-raw": true, "confirm-token": true, "recover-token": true, "2fa-verify-token": true, "sms-code": true}
 
 func userStrings(u harness.User) []string {
 	var out []string
